@@ -459,16 +459,25 @@ fn run_inner(kind: &str, mode: &str, n: u64, sched: &[Step]) -> String {
             for c in 0..n { if srv.need(c).is_none() { break; } }
             for st in sched { if let Some(fr) = server_frame(&mut srv, st) { srv.send(fr); } }
         }
-        "batch" => {
+        // batcht: the same with a short per-call timeout; entries that the script times out (T:k) are
+        // never answered, the others are answered as their requests arrive
+        "batch" | "batcht" => {
+            let btmo = if mode == "batcht" { Duration::from_millis(300) } else { LONG };
             let reqs: Vec<(String, Value)> = (0..n).map(|i| (format!("/b{i}"), json!({"tag": i}))).collect();
             let tx2 = tx.clone();
             let report = move |res: Vec<Result<Value, RepeError>>| { for (i, r) in res.into_iter().enumerate() { let _ = tx2.send((i as u64, outcome(r))); } };
             match cl.clone() {
-                Cl::Tcp(c) => { std::thread::spawn(move || report(c.batch_json_with_timeout(reqs, LONG))); }
-                Cl::Async(c) => { rt().spawn(async move { report(c.batch_json_with_timeout(reqs, LONG).await) }); }
-                Cl::Ws(c) => { rt().spawn(async move { report(c.batch_json_with_timeout(reqs, LONG).await) }); }
+                Cl::Tcp(c) => { std::thread::spawn(move || report(c.batch_json_with_timeout(reqs, btmo))); }
+                Cl::Async(c) => { rt().spawn(async move { report(c.batch_json_with_timeout(reqs, btmo).await) }); }
+                Cl::Ws(c) => { rt().spawn(async move { report(c.batch_json_with_timeout(reqs, btmo).await) }); }
             }
             for st in sched { if let Some(fr) = server_frame(&mut srv, st) { srv.send(fr); } }
+            // the unanswered entries end by their own timeout while the connection is still open
+            if mode == "batcht" {
+                pump(&rx, &mut outs, |o| o.len() as u64 >= n, Duration::from_secs(6));
+                // every entry was written by now: read the requests nobody answered too (for `ids`)
+                while (srv.seen.len() as u64) < n { if !srv.read_one() { break; } }
+            }
         }
         _ => probe_run(kind, &cl, &mut srv, &gate, sched, &tx, &rx, &mut outs),
     }
@@ -774,6 +783,19 @@ fn gen_cases(seed: u64, thorough: bool) -> Vec<String> {
                 let window = if kind == "tcp" { batch_cap() } else { n };
                 cases.push(render(kind, "batch", n, &batch_script(&mut rng, n, window)));
             }
+        }
+    }
+    // batches in which the first entries are never answered and time out while later ones are
+    // served: every entry still gets its own result (a timeout or its own response)
+    for kind in kinds {
+        let w = if kind == "tcp" { batch_cap() } else { 8 };
+        for extra in [1u64, 6] {
+            let n = w + extra;
+            let mut sched = prefix(n);
+            let dead: Vec<u64> = (0..w).collect();
+            for k in w..n { sched.push(Step::Reply(k, 0)); }
+            for k in &dead { sched.push(Step::T(*k)); }
+            cases.push(render(kind, "batcht", n, &sched));
         }
     }
     // model-sampled interleavings replayed through the probe points
